@@ -536,4 +536,245 @@ theorem resample1_up_down (x : List (Cx ℝ)) (m : ℕ) (hn : 1 ≤ x.length) (h
   rw [List.map_congr_left (fun a _ => hc a)]
   simp
 
+/-! ### real input: Hermitian symmetry, real output, real round trip -/
+
+/-- index of the negative frequency: `(-k) mod N` -/
+def negIdx (N k : ℕ) : ℕ := if k = 0 then 0 else N - k
+
+theorem negIdx_lt {N k : ℕ} (hk : k < N) : negIdx N k < N := by unfold negIdx; split_ifs <;> omega
+theorem negIdx_negIdx {N k : ℕ} (hk : k < N) : negIdx N (negIdx N k) = k := by
+  unfold negIdx; split_ifs <;> omega
+
+theorem sum_negIdx (N : ℕ) (F : ℕ → ℂ) :
+    ∑ k ∈ Finset.range N, F k = ∑ k ∈ Finset.range N, F (negIdx N k) := by
+  apply Finset.sum_nbij' (negIdx N) (negIdx N)
+  · intro a ha; exact Finset.mem_range.mpr (negIdx_lt (Finset.mem_range.mp ha))
+  · intro a ha; exact Finset.mem_range.mpr (negIdx_lt (Finset.mem_range.mp ha))
+  · intro a ha; exact negIdx_negIdx (Finset.mem_range.mp ha)
+  · intro a ha; exact negIdx_negIdx (Finset.mem_range.mp ha)
+  · intro a ha; rw [negIdx_negIdx (Finset.mem_range.mp ha)]
+
+theorem conj_zeta (N : ℕ) : (starRingEnd ℂ) (zeta N) = (zeta N)⁻¹ := by
+  unfold zeta
+  rw [← Complex.exp_conj, ← Complex.exp_neg]
+  congr 1
+  have h2 : (starRingEnd ℂ) (2 : ℂ) = 2 := by
+    rw [show (2 : ℂ) = ((2 : ℝ) : ℂ) by norm_num, Complex.conj_ofReal]
+  simp [Complex.conj_ofReal, h2]
+  ring
+
+/-- `ζ^(-k·i) = ζ^((N-k)·i)` in natural exponents -/
+theorem zeta_neg_pow (N k i : ℕ) (hN : N ≠ 0) (hk : k < N) :
+    (zeta N)⁻¹ ^ (negIdx N k * i % N) = (zeta N) ^ (k * i % N) := by
+  have hz : zeta N ≠ 0 := Complex.exp_ne_zero _
+  rw [zeta_inv_pow_mod N _ hN, zeta_pow_mod N _ hN]
+  unfold negIdx
+  split_ifs with h0
+  · subst h0; simp
+  · -- (ζ⁻¹)^((N-k) i) = ζ^(k i)  since ζ^(N i) = 1
+    have h1 : (zeta N) ^ ((N - k) * i) * (zeta N) ^ (k * i) = 1 := by
+      rw [← pow_add, ← Nat.add_mul, Nat.sub_add_cancel (le_of_lt hk), pow_mul, zeta_pow_N N hN, one_pow]
+    rw [inv_pow]
+    have h2 : (zeta N) ^ ((N - k) * i) ≠ 0 := pow_ne_zero _ hz
+    field_simp
+    exact h1.symm
+
+theorem zeta_pos_neg_pow (N k i : ℕ) (hN : N ≠ 0) (hk : k < N) :
+    (zeta N) ^ (negIdx N k * i % N) = (zeta N)⁻¹ ^ (k * i % N) := by
+  have := zeta_neg_pow N (negIdx N k) i hN (negIdx_lt hk)
+  rw [negIdx_negIdx hk] at this
+  exact this.symm
+
+
+theorem fftfreqInt_inj {n a b : ℕ} (ha : a < n) (hb : b < n) (h : fftfreqInt n a = fftfreqInt n b) : a = b := by
+  unfold fftfreqInt at h
+  split_ifs at h <;> omega
+
+theorem srcBin_eq_some_iff {n m k' k : ℕ} (hn : 1 ≤ n) (hm : 1 ≤ m) (hk : k' < m) :
+    srcBin n m k' = some k ↔ k < n ∧ fftfreqInt n k = fftfreqInt m k' := by
+  constructor
+  · intro h; exact ⟨srcBin_lt hk h, srcBin_freq hn hm hk h⟩
+  · rintro ⟨hkn, hf⟩
+    cases hs : srcBin n m k' with
+    | none =>
+      exfalso
+      have := (srcBin_none_iff hn hm hk).mp hs
+      rw [← hf] at this
+      unfold fftfreqInt at this
+      split_ifs at this <;> omega
+    | some k2 =>
+      have h2 := srcBin_freq hn hm hk hs
+      have h3 := srcBin_lt hk hs
+      rw [fftfreqInt_inj h3 hkn (h2.trans hf.symm)]
+
+/-- the index map commutes with frequency negation, except at the Nyquist bin of an even
+input that is up-sampled (its coefficient is placed at `-n/2` only) -/
+theorem srcBin_neg_some {n m k' k : ℕ} (hn : 1 ≤ n) (hnm : n ≤ m) (hk : k' < m)
+    (h : srcBin n m k' = some k) :
+    srcBin n m (negIdx m k') = some (negIdx n k) ∨
+      (n % 2 = 0 ∧ n < m ∧ k = n / 2 ∧ srcBin n m (negIdx m k') = none) := by
+  have hm : 1 ≤ m := by omega
+  obtain ⟨hkn, hf⟩ := (srcBin_eq_some_iff hn hm hk).mp h
+  have hk2 : negIdx m k' < m := negIdx_lt hk
+  by_cases hex : n % 2 = 0 ∧ n < m ∧ k = n / 2
+  · right
+    refine ⟨hex.1, hex.2.1, hex.2.2, ?_⟩
+    rw [srcBin_none_iff hn hm hk2]
+    unfold fftfreqInt negIdx at *
+    split_ifs at hf ⊢ <;> omega
+  · left
+    rw [srcBin_eq_some_iff hn hm hk2]
+    refine ⟨negIdx_lt hkn, ?_⟩
+    unfold fftfreqInt negIdx at *
+    split_ifs at hf ⊢ <;> omega
+
+theorem srcBin_neg_none {n m k' : ℕ} (hn : 1 ≤ n) (hnm : n ≤ m) (hk : k' < m)
+    (h : srcBin n m k' = none) :
+    srcBin n m (negIdx m k') = none ∨
+      (n % 2 = 0 ∧ n < m ∧ srcBin n m (negIdx m k') = some (n / 2)) := by
+  have hm : 1 ≤ m := by omega
+  have hk2 : negIdx m k' < m := negIdx_lt hk
+  have hb := (srcBin_none_iff hn hm hk).mp h
+  by_cases hex : n % 2 = 0 ∧ n < m ∧ fftfreqInt m k' = ((n / 2 : ℕ) : ℤ)
+  · right
+    refine ⟨hex.1, hex.2.1, ?_⟩
+    rw [srcBin_eq_some_iff hn hm hk2]
+    refine ⟨by omega, ?_⟩
+    have h3 := hex.2.2
+    unfold fftfreqInt negIdx at *
+    split_ifs at h3 hb ⊢ <;> omega
+  · left
+    rw [srcBin_none_iff hn hm hk2]
+    unfold fftfreqInt negIdx at *
+    split_ifs at hb hex ⊢ <;> omega
+
+/-- forward DFT coefficient in ℂ -/
+noncomputable def XhatC (n : ℕ) (v : ℕ → ℂ) (k : ℕ) : ℂ :=
+  ∑ i ∈ Finset.range n, v i * (zeta n)⁻¹ ^ (k * i % n)
+
+/-- coefficient placed in output bin `k'` -/
+noncomputable def YhatC (n m : ℕ) (v : ℕ → ℂ) (k' : ℕ) : ℂ :=
+  match srcBin n m k' with
+  | some k => XhatC n v k
+  | none => 0
+
+theorem resampleC_eq (n m : ℕ) (v : ℕ → ℂ) (j : ℕ) :
+    resampleC n m v j = ((m : ℂ) / (n : ℂ)) * ((1 / (m : ℂ)) *
+      ∑ k' ∈ Finset.range m, YhatC n m v k' * (zeta m) ^ (k' * j % m)) := by
+  unfold resampleC YhatC XhatC
+  rfl
+
+theorem conj_XhatC (n : ℕ) (v : ℕ → ℂ) (hv : ∀ i, (starRingEnd ℂ) (v i) = v i) (hn : n ≠ 0)
+    (k : ℕ) (hk : k < n) : (starRingEnd ℂ) (XhatC n v k) = XhatC n v (negIdx n k) := by
+  unfold XhatC
+  rw [map_sum]
+  apply Finset.sum_congr rfl
+  intro i _
+  rw [map_mul, hv i, map_pow, map_inv₀, conj_zeta, inv_inv, zeta_neg_pow n k i hn hk]
+
+theorem conj_YhatC (n m : ℕ) (v : ℕ → ℂ) (hv : ∀ i, (starRingEnd ℂ) (v i) = v i)
+    (hn : 1 ≤ n) (hnm : n ≤ m) (hny : n % 2 = 0 → n < m → XhatC n v (n / 2) = 0)
+    (k' : ℕ) (hk : k' < m) : (starRingEnd ℂ) (YhatC n m v k') = YhatC n m v (negIdx m k') := by
+  have hn0 : n ≠ 0 := by omega
+  unfold YhatC
+  cases hs : srcBin n m k' with
+  | some k =>
+    simp only
+    have hkn := srcBin_lt hk hs
+    rw [conj_XhatC n v hv hn0 k hkn]
+    rcases srcBin_neg_some hn hnm hk hs with h2 | ⟨he, hlt, hk2, h2⟩
+    · rw [h2]
+    · rw [h2]
+      simp only
+      have h0 := hny he hlt
+      subst hk2
+      rw [← conj_XhatC n v hv hn0 _ hkn, h0, map_zero]
+  | none =>
+    simp only [map_zero]
+    rcases srcBin_neg_none hn hnm hk hs with h2 | ⟨he, hlt, h2⟩
+    · rw [h2]
+    · rw [h2]; simp only; exact (hny he hlt).symm
+
+/-- real, Nyquist-free input gives real output of the up-sampling operator (in ℂ) -/
+theorem conj_resampleC (n m : ℕ) (v : ℕ → ℂ) (hv : ∀ i, (starRingEnd ℂ) (v i) = v i)
+    (hn : 1 ≤ n) (hnm : n ≤ m) (hny : n % 2 = 0 → n < m → XhatC n v (n / 2) = 0) (j : ℕ) :
+    (starRingEnd ℂ) (resampleC n m v j) = resampleC n m v j := by
+  have hm0 : m ≠ 0 := by omega
+  rw [resampleC_eq]
+  rw [map_mul, map_mul, map_sum]
+  have hc1 : (starRingEnd ℂ) ((m : ℂ) / (n : ℂ)) = (m : ℂ) / (n : ℂ) := by
+    rw [map_div₀, Complex.conj_natCast, Complex.conj_natCast]
+  have hc2 : (starRingEnd ℂ) (1 / (m : ℂ)) = 1 / (m : ℂ) := by
+    rw [map_div₀, map_one, Complex.conj_natCast]
+  rw [hc1, hc2]
+  congr 2
+  rw [sum_negIdx m (fun k' => YhatC n m v k' * (zeta m) ^ (k' * j % m))]
+  apply Finset.sum_congr rfl
+  intro k' hk'
+  have hk := Finset.mem_range.mp hk'
+  rw [map_mul, conj_YhatC n m v hv hn hnm hny k' hk, map_pow, conj_zeta,
+    zeta_pos_neg_pow m k' j hm0 hk]
+
+/-- every sample is real -/
+def IsRealList (x : List (Cx ℝ)) : Prop := ∀ z ∈ x, z.im = 0
+
+/-- no Nyquist-frequency content: for even length the DFT coefficient at `n/2` vanishes -/
+def NoNyquist (x : List (Cx ℝ)) : Prop :=
+  x.length % 2 = 0 → toC ((dft x).getD (x.length / 2) Cx.zero) = 0
+
+/-- what `fourier_resample` does to real arrays after the inverse FFT: `.real` -/
+noncomputable def takeReal (x : List (Cx ℝ)) : List (Cx ℝ) := x.map fun z => Cx.ofReal z.re
+
+theorem takeReal_of_real {x : List (Cx ℝ)} (h : IsRealList x) : takeReal x = x := by
+  unfold takeReal
+  conv_rhs => rw [← List.map_id x]
+  apply List.map_congr_left
+  intro z hz
+  have := h z hz
+  cases z with
+  | mk re im =>
+    simp only at this
+    subst this
+    simp only [Cx.ofReal, id]
+    congr 1
+    simp [Num.zero]
+
+theorem vecC_real {x : List (Cx ℝ)} (h : IsRealList x) (i : ℕ) :
+    (starRingEnd ℂ) (vecC x i) = vecC x i := by
+  unfold vecC
+  rw [Complex.conj_eq_iff_im]
+  by_cases hi : i < x.length
+  · rw [List.getD_eq_getElem?_getD, List.getElem?_eq_getElem hi]
+    simp only [Option.getD_some, toC]
+    exact h _ (List.getElem_mem _)
+  · rw [List.getD_eq_getElem?_getD, List.getElem?_eq_none (Nat.le_of_not_lt hi)]
+    simp [toC, Cx.zero]
+
+/-- **real, Nyquist-free input stays real under up-sampling**: `.real` is a no-op -/
+theorem resample1_real (x : List (Cx ℝ)) (m : ℕ) (hn : 1 ≤ x.length) (hnm : x.length ≤ m)
+    (hx : IsRealList x) (hny : x.length < m → NoNyquist x) :
+    IsRealList (resample1 m x) := by
+  intro z hz
+  obtain ⟨j, hj, rfl⟩ := List.mem_iff_getElem.mp hz
+  have hjm : j < m := by rw [length_resample1] at hj; exact hj
+  have h1 := resample1_getD x m j hjm
+  have h2 := conj_resampleC x.length m (vecC x) (vecC_real hx) hn hnm (by
+    intro he hlt
+    have := hny hlt he
+    rw [toC_dft_getD x (x.length / 2) (by omega)] at this
+    exact this) j
+  rw [← h1, Complex.conj_eq_iff_im] at h2
+  unfold vecC at h2
+  rw [List.getD_eq_getElem?_getD, List.getElem?_eq_getElem hj] at h2
+  simpa [toC] using h2
+
+/-- **up-sampling then down-sampling back returns the original, as the code runs it on real
+arrays** (real part taken after each inverse FFT), for every real signal without
+Nyquist-frequency content -/
+theorem resample1_up_down_real (x : List (Cx ℝ)) (m : ℕ) (hn : 1 ≤ x.length) (hnm : x.length ≤ m)
+    (hx : IsRealList x) (hny : x.length < m → NoNyquist x) :
+    takeReal (resample1 x.length (takeReal (resample1 m x))) = x := by
+  rw [takeReal_of_real (resample1_real x m hn hnm hx hny), resample1_up_down x m hn hnm,
+    takeReal_of_real hx]
+
 end QuantemModel.Resample
